@@ -407,6 +407,8 @@ def r7(chk, ctx):
 
 
 def run(chk, ctx):
+    from . import generic
+    generic.definite_assignment(chk, ctx, ['statelint', 'j2119'], "C18.DA")   # no local is read before it is bound (UnboundLocalError = an arbitrary exception)
     r7(chk, ctx)
     r6(chk, ctx)
     r1(chk, ctx)
